@@ -267,7 +267,23 @@ func TestPubSubAPI(t *testing.T) {
 				a.sub.Close()
 			}
 		}
-		time.Sleep(20 * time.Millisecond)
+		// wait until both members have dropped this program's connections (they notice a close asynchronously)
+		for m := 1; m <= 2; m++ {
+			deadline := time.Now().Add(10 * time.Second)
+			for {
+				r, err := pubs[m].PubSubNumSub(ctx, barrier)
+				if err != nil {
+					t.Fatal(err)
+				}
+				if r[barrier] == 0 {
+					break
+				}
+				if time.Now().After(deadline) {
+					t.Fatalf("connections of program %d were not dropped by member %d", i+1, m)
+				}
+				time.Sleep(time.Millisecond)
+			}
+		}
 	}
 	if err := tw.Close(); err != nil {
 		t.Fatal(err)
